@@ -86,6 +86,7 @@ func c01(r *core.Run) {
 	r.Rule("A3", "pop atomically: in the worker loop 'non-empty observed' -> read of element 0 -> store dropping the head -> call of drain(on that element) happen without a release point, and drain is entered and left with the lock Held", 3)
 	r.Rule("H1", "restart safety (start/stop/start histories): Shutdown declares the service stopped only after a synchronous, unconditional WaitGroup.Wait for all workers, and serve re-creates the group registry before any worker of the new run starts - so a callback of the previous run cannot overlap one of the next", 2)
 	r.Rule("F1", "funnel: every callback-kind dynamic call (handlers, With*/query callbacks, queue elements) is reachable only through the closure handed to enqueue / the drain loop; documented exceptions are named", 6)
+	r.Rule("F3", "group value: the routed Match.Group is toString(the matched node's group template, name tokens re-sliced at the match record's mount index), and the record's node, mount index and params are written together at each accept site (the obligations of C06.R4): a stale or early-written mount index evaluates ${tags} on the wrong tokens, so resources meant to share a worker group get different ids and run concurrently", 6)
 	r.Rule("F2", "group argument: at every call site of enqueue the group id is the routed Match.Group (resource name when no match), a Resource's Group(), or WithGroup's own parameter; resource.group is only written from Match.Group and Match.Group only from the registered group's toString", 8)
 
 	a, e := queueEngine(r, "L1")
@@ -145,6 +146,10 @@ func c01(r *core.Run) {
 	c01Restart(r, a, root)
 	// ---- F1/F2 -------------------------------------------------------------
 	c01Funnel(r, a, root)
+	// ---- F3 (shared with C06.R4) --------------------------------------------
+	if ro := resolveMuxRolesFor(r, "F3"); ro != nil {
+		c06MatchAssembly(r, "F3", root, ro)
+	}
 	c01GroupArg(r, a, root)
 }
 
